@@ -424,7 +424,7 @@ func ruleReadFrom(c *Ctx) {
 
 func ruleMargin(c *Ctx) {
 	pb := c.parserBuf()
-	grow := c.method(pb, "grow")
+	grow := c.roles().grow
 	if grow == nil {
 		c.fail("lz.(*ParserBuffer).grow", token.NoPos, "method not found")
 	} else {
@@ -787,14 +787,14 @@ func ruleShrinkWrap(c *Ctx) {
 		}
 	}
 	// the re-basing routines themselves
-	for _, tn := range []string{"hash", "bucketHash"} {
-		T := c.namedType(c.lz, tn)
-		if T == nil {
-			continue
-		}
-		fn := c.method(T, "shiftOffsets")
-		if fn == nil {
-			c.fail("lz.(*"+tn+").shiftOffsets", token.NoPos, "re-basing routine not found")
+	// (found by role: the functions that store position − x into an entry's position field)
+	rb := c.roles().rebase
+	if len(rb) < 2 {
+		c.fail("lz:rebase-routines", token.NoPos, fmt.Sprintf("only %d re-basing routines found (hash and bucket hash expected)", len(rb)))
+	}
+	for _, fn := range rb {
+		if len(fn.Params) != 2 {
+			c.fail(fnName(fn)+":pos-store", fn.Pos(), "re-basing routine does not take exactly δ")
 			continue
 		}
 		c.checkShiftOffsets(fn)
@@ -815,13 +815,14 @@ func (c *Ctx) checkShiftOffsets(fn *ssa.Function) {
 				continue
 			}
 			fa, ok := st.Addr.(*ssa.FieldAddr)
-			if !ok || derefStruct(fa.X.Type()).Field(fa.Field).Name() != "pos" {
+			if !ok || derefStruct(fa.X.Type()).Field(fa.Field).Name() != c.posFieldName(fa.X.Type()) {
 				continue
 			}
+			posName := c.posFieldName(fa.X.Type())
 			n++
 			key := fmt.Sprintf("%s:pos-store#%d", name, n)
 			bo, ok := st.Val.(*ssa.BinOp)
-			good := ok && bo.Op == token.SUB && bo.Y == delta && isFieldRead(bo.X, "pos")
+			good := ok && bo.Op == token.SUB && bo.Y == delta && isFieldRead(bo.X, posName)
 			if good {
 				// dominated by pos ≥ δ in any spelling (¬(pos < δ), δ ≤ pos, …): decided on the facts
 				guarded := fi.proveLE(fi.lin(delta).sub(fi.lin(bo.X)), b, nil)
